@@ -180,6 +180,14 @@ def check_nullable_args(ctx, module_names: typing.Iterable[str], floor=1):
   return n
 
 
+def check_optional_field_args(ctx, module_names: typing.Iterable[str], floor=1):
+  """NUL-optarg on the given modules."""
+  from ..rules import nul
+  n = nul.check_optional_field_args(ctx, funcs(ctx, [m for m in module_names if m in ctx.ix.modules]))
+  ctx.floor("NUL-optarg", "Optional record fields passed to a call", n, floor)
+  return n
+
+
 def check_known_none(ctx, module_names: typing.Iterable[str]):
   """NUL-known on the given modules, with its positive fixture (the expected count on the repository is zero)."""
   from ..rules import nul
